@@ -170,6 +170,23 @@ fn flood_twin(ctx: &WorkerCtx, rep: &mut WorkerReport, case_seed: u64) {
     compare_with_child_twin(ctx, rep, ops, u, net, case_seed);
 }
 
+/// Replays `ops` in a fresh child process (its own hash seeds, its own process-wide state) and returns
+/// what it answered and observed at every boundary.
+pub fn replay_in_child(ctx: &WorkerCtx, ops: &[Op], u: &Universe, net: &str) -> Option<TwinOut> {
+    let work = rpc::fresh_dir("C02");
+    let opsfile = work.join("ops.json");
+    let resfile = work.join("twin.json");
+    std::fs::write(&opsfile, serde_json::to_string(&json!({"ops": ops, "universe": universe_json(u), "network": net})).unwrap()).ok()?;
+    let exe = std::env::current_exe().ok()?;
+    let status = Command::new(exe)
+        .args(["worker", "C02", &ctx.tier, &ctx.seed.to_string(), &ctx.shard.to_string(), &ctx.nshards.to_string(), work.join("unused-report.json").to_str().unwrap(), "twin", opsfile.to_str().unwrap(), resfile.to_str().unwrap()])
+        .status();
+    let out: Option<TwinOut> = std::fs::read_to_string(&resfile).ok().and_then(|s| serde_json::from_str(&s).ok());
+    rpc::remove_dir(&work);
+    let _ = status;
+    out
+}
+
 fn compare_with_child_twin(ctx: &WorkerCtx, rep: &mut WorkerReport, ops: Vec<Op>, u: Universe, net: &str, case_seed: u64) {
     let hd = digest_ops(&ops);
     // child process twin
